@@ -65,18 +65,23 @@ fn rows_key(rows: &[Vec<Cell>], ordered: bool) -> Vec<String> { let mut v: Vec<S
 
 /// the two relations have the same column names and sizes, and column types that are equal as sets (`DataType ==` is mutual inclusion)
 /// while their text differs: the signature of the `DataType` Hash / Eq mismatch
-pub fn same_modulo_type_structure(a: &Relation, b: &Relation) -> bool {
+/// the same, for a comparison that is about the column types only (a read-back through a dialect whose LIMIT spelling changes the declared size)
+pub fn same_types_modulo_structure(a: &Relation, b: &Relation) -> bool { same_modulo(a, b, false) }
+pub fn same_modulo_type_structure(a: &Relation, b: &Relation) -> bool { same_modulo(a, b, true) }
+fn same_modulo(a: &Relation, b: &Relation, with_size: bool) -> bool {
     use qrlew::data_type::DataType;
     // integer types as explicit value sets (the library's own `==` distinguishes `int[0 2]` from `int{0, 1, 2}`)
     fn ints(t: &DataType) -> Option<std::collections::BTreeSet<i64>> {
         match t { DataType::Optional(o) => ints(o.data_type()),
             DataType::Integer(i) => { let mut s = std::collections::BTreeSet::new(); for [lo, hi] in i.iter() { if hi.checked_sub(*lo)? > 10000 { return None; } for v in *lo..=*hi { s.insert(v); } } Some(s) }
+            // the same set written as float points (float{0} for int{0}): `DataType ==` is mutual inclusion modulo the Integer -> Float embedding
+            DataType::Float(f) => { let mut s = std::collections::BTreeSet::new(); for [lo, hi] in f.iter() { if lo != hi || lo.fract() != 0.0 || lo.abs() > 1e15 { return None; } s.insert(*lo as i64); } Some(s) }
             _ => None }
     }
     // `null` (no value at all: the relation cannot have rows) on one side, any other spelling (`option(null)`, `option(any)`) on the other
     let void = |t: &DataType| matches!(t, DataType::Null) || matches!(t, DataType::Optional(o) if matches!(o.data_type(), DataType::Null)) || { let s = t.to_string(); s == "∅" || s == "option(∅)" };
     let same_set = |x: &DataType, y: &DataType| x.to_string() == y.to_string() || x == y || void(x) || void(y) || matches!((ints(x), ints(y)), (Some(p), Some(q)) if p == q && matches!(x, DataType::Optional(_)) == matches!(y, DataType::Optional(_)));
-    a.schema().len() == b.schema().len() && a.size() == b.size()
+    a.schema().len() == b.schema().len() && (!with_size || a.size() == b.size())
         && a.schema().iter().zip(b.schema().iter()).all(|(x, y)| x.name() == y.name() && same_set(&x.data_type(), &y.data_type()))
         && a.schema().iter().zip(b.schema().iter()).any(|(x, y)| x.data_type().to_string() != y.data_type().to_string())
 }
